@@ -116,7 +116,17 @@ class Engine:
 
     def fallback(self, goal):
         t = time.time()
-        r, _, _, _ = _strategies(list(goal) + list(self.axioms), 8000)
+        if FP_MODE:
+            # branch feasibility in the float64 model: only the cheap arithmetic-abstracted query; anything not refuted
+            # there is explored (sound: can only add paths -- their obligations are discharged exactly)
+            from vf import cvc5x
+
+            g = list(goal) + list(self.axioms)
+            r0, _, _ = cvc5x.check_fp(abstract_fp(g) or g, 20000)
+            self.solver_time += time.time() - t
+            self.queries += 1
+            return z3.unsat if r0 == "unsat" else z3.sat
+        r, _, _, _ = _strategies(list(goal) + list(self.axioms), 8000, want_model=False)
         self.solver_time += time.time() - t
         self.queries += 1
         return r
@@ -155,7 +165,7 @@ class Engine:
             if taken is None:  # replayed assumption slot: should not happen for decisions
                 raise RuntimeError("prefix/trace mismatch (non-deterministic harness?)")
         else:
-            r = self.check(*self.pc(feas=True), cond)
+            r = z3.unknown if FP_MODE else self.check(*self.pc(feas=True), cond)
             if r == z3.unknown:
                 r = self.fallback(self.pc(feas=True) + [cond])
             if r == z3.sat:
@@ -626,6 +636,10 @@ def ite(cond, a, b):
     if not isinstance(cond, SB):
         return a if cond else b
     c = cond.e
+    if type(a).__name__ == "SF" or type(b).__name__ == "SF":
+        from vf import fpx
+
+        return fpx.fite(cond, a, b)
     x, y = _arith(zval(a), zval(b))
     return SV(z3.If(c, x, y))
 
@@ -878,9 +892,69 @@ def abstract_uf(goal):
     return [z3.substitute(f, *pairs) for f in goal]
 
 
+def abstract_fp(goal):
+    """replace every maximal float arithmetic term (+ - * / sqrt) by a fresh float constant: a superset of the behaviours,
+    hence sound for 'unsat'; decides goals that only depend on comparisons / min / max / ite of such terms"""
+    ARITH = {z3.Z3_OP_FPA_ADD, z3.Z3_OP_FPA_SUB, z3.Z3_OP_FPA_MUL, z3.Z3_OP_FPA_DIV, z3.Z3_OP_FPA_SQRT, z3.Z3_OP_FPA_FMA,
+             z3.Z3_OP_FPA_REM, z3.Z3_OP_FPA_ROUND_TO_INTEGRAL}
+    subst, seen, stack = {}, set(), list(goal)
+    while stack:
+        t = stack.pop()
+        if t.get_id() in seen:
+            continue
+        seen.add(t.get_id())
+        if z3.is_app(t):
+            if t.decl().kind() in ARITH:
+                subst[t.get_id()] = (t, z3.Const("fpabs!%d" % t.get_id(), t.sort()))
+            else:
+                stack.extend(t.children())
+    if not subst:
+        return None
+    pairs = list(subst.values())
+    return [z3.substitute(g, *pairs) for g in goal]
+
+
+FP_MODE = False  # set by float64 harnesses (vf.fpx): goals are QF_FP(+UF) and go to the bit-blasting tactic
+FP_TIMEOUT_MS = 120000
+
+
 def _strategies(goal, timeout_ms, want_model=True):
     """returns (result, model, seconds, backend); several attempts because z3 is not robust on UF+NRA"""
     total = 0.0
+    if FP_MODE:
+        from vf import cvc5x
+
+        budget = max(timeout_ms, FP_TIMEOUT_MS)
+        consts, seen, stack = {}, set(), list(goal)
+        while stack:
+            t = stack.pop()
+            if t.get_id() in seen:
+                continue
+            seen.add(t.get_id())
+            if z3.is_const(t) and t.decl().kind() == z3.Z3_OP_UNINTERPRETED and z3.is_fp(t):
+                consts[t.decl().name()] = t
+            elif z3.is_app(t):
+                stack.extend(t.children())
+        abstr = abstract_fp(goal)
+        if abstr is not None:
+            r0, _, dt0 = cvc5x.check_fp(abstr, 20000)
+            total += dt0
+            if r0 == "unsat":
+                return z3.unsat, None, total, "cvc5-qffp(arith-abstracted)"
+        r3, m3, dt3 = cvc5x.check_fp(goal, budget, [consts[k] for k in sorted(consts)])
+        dt3 += total
+        if r3 in ("sat", "unsat"):
+            # a cvc5 'sat' is validated below by evaluating the goal under the model (and later by the replay)
+            if r3 == "unsat" or all(z3.is_true(m3.eval(g)) for g in goal if not _uf_apps([g])):
+                return (z3.sat if r3 == "sat" else z3.unsat), m3, dt3, "cvc5-qffp"
+        s = z3.Solver()
+        s.set("timeout", budget)
+        s.add(*goal)
+        t = time.time()
+        r = z3.unknown
+        with watchdog(budget + 5000):
+            r = s.check()
+        return r, (s.model() if r == z3.sat else None), dt3 + time.time() - t, "z3-fp"
     try:
         r, m, dt = _solve(goal, max(2000, timeout_ms // 4), tactic="qfnra-nlsat")
         total += dt
@@ -951,18 +1025,28 @@ def discharge(eng, path, obligations, *, timeout_ms=20000, hints=(), use_cvc5=Tr
         inside, outside = in1 + in2, out1 + out2
         goal = inside + [neg]
         r, m, dt, backend = _strategies(goal, timeout_ms)
-        if r == z3.unknown and use_cvc5:
+        if r == z3.unknown and use_cvc5 and not FP_MODE:
             from vf import cvc5x
 
             r3, dt3 = cvc5x.check(goal, timeout_ms)
             dt += dt3
             if r3 == "unsat":
                 r, backend = z3.unsat, "cvc5"
+        if r == z3.unknown and not FP_MODE:
+            # time-outs are wall-clock: under CPU contention a query that normally takes seconds may not finish -- one
+            # more attempt with four times the budget before the obligation is reported as undecided
+            r, m, dt4, backend = _strategies(goal, timeout_ms * 4)
+            dt += dt4
+            if r == z3.unknown:
+                backend += "(retried)"
         if r == z3.sat and outside:
             # complete the counterexample with a model of the independent remainder (validated later by replay)
             r2, m2, dt2, _ = _strategies(outside, timeout_ms)
             dt += dt2
-            m = MultiModel([m, m2])
+            if r2 == z3.sat:
+                m = MultiModel([m, m2])
+            else:  # no witness for the rest of the path condition: the refutation is not established
+                r, m = z3.unknown, None
         eng.queries += 1
         eng.solver_time += dt
         out.append(Verdict(name, str(r), model=m, seconds=dt, formula=f, backend=backend))
@@ -977,6 +1061,13 @@ def model_value(m, e, default=0.0):
         except (KeyError, ValueError):
             pass
     v = m.eval(e, model_completion=True)
+    if z3.is_fp(v):
+        v = z3.simplify(v)
+        if z3.is_fp_value(v):
+            from vf import fpx
+
+            return fpx.fp_to_float(v)
+        return default
     n = _num(v)
     if n is None:
         if z3.is_algebraic_value(v):
